@@ -313,6 +313,21 @@ Definition complete_next (s : state) (count : Z) (nowrap : bool) : state * Z :=
       | None => go_to_completion s (Some 0)
       | Some i =>
           if i =? n - 1 then (if nowrap then (s, 0) else go_to_completion s None)
+          else go_to_completion s (Some (Z.max 0 (Z.min (n - 1) (i + count))))
+      end
+  end.
+
+(* complete_next as it was before /repo commit c676c2a (no lower clamp): kept
+   only for C15_negative_count_pinned_refuted *)
+Definition complete_next_pinned (s : state) (count : Z) (nowrap : bool) : state * Z :=
+  match cst s with
+  | None => (s, 0)
+  | Some cs =>
+      let n := len (cs_comps cs) in
+      match cs_idx cs with
+      | None => go_to_completion s (Some 0)
+      | Some i =>
+          if i =? n - 1 then (if nowrap then (s, 0) else go_to_completion s None)
           else go_to_completion s (Some (Z.min (n - 1) (i + count)))
       end
   end.
@@ -324,7 +339,7 @@ Definition complete_prev (s : state) (count : Z) (nowrap : bool) : state * Z :=
       match cs_idx cs with
       | Some i =>
           if i =? 0 then (if nowrap then (s, 0) else go_to_completion s None)
-          else go_to_completion s (Some (Z.max 0 (i - count)))
+          else go_to_completion s (Some (Z.min (len (cs_comps cs) - 1) (Z.max 0 (i - count))))
       | None => go_to_completion s (Some (len (cs_comps cs) - 1))
       end
   end.
